@@ -9,6 +9,9 @@ theorem tie_h_defs_dagStoreImpl_Delete : Extracted.Defs.h_defs_dagStoreImpl_Dele
 theorem tie_h_defs_dagStoreImpl_Rename : Extracted.Defs.h_defs_dagStoreImpl_Rename = Canon.Defs.h_defs_dagStoreImpl_Rename := by decide +kernel
 theorem tie_h_defs_dagStoreImpl_fileLocation : Extracted.Defs.h_defs_dagStoreImpl_fileLocation = Canon.Defs.h_defs_dagStoreImpl_fileLocation := by decide +kernel
 theorem tie_h_defs__exists : Extracted.Defs.h_defs__exists = Canon.Defs.h_defs__exists := by decide +kernel
+theorem tie_h_defs__writeFileAtomic : Extracted.Defs.h_defs__writeFileAtomic = Canon.Defs.h_defs__writeFileAtomic := by decide +kernel
+theorem tie_h_defs_dagStoreImpl_ensureDirExist : Extracted.Defs.h_defs_dagStoreImpl_ensureDirExist = Canon.Defs.h_defs_dagStoreImpl_ensureDirExist := by decide +kernel
+theorem tie_h_defs__checkExtension : Extracted.Defs.h_defs__checkExtension = Canon.Defs.h_defs__checkExtension := by decide +kernel
 theorem tie_h_defs_client_CreateDAG : Extracted.Defs.h_defs_client_CreateDAG = Canon.Defs.h_defs_client_CreateDAG := by decide +kernel
 theorem tie_h_defs_client_Rename : Extracted.Defs.h_defs_client_Rename = Canon.Defs.h_defs_client_Rename := by decide +kernel
 theorem tie_h_defs_client_UpdateDAG : Extracted.Defs.h_defs_client_UpdateDAG = Canon.Defs.h_defs_client_UpdateDAG := by decide +kernel
@@ -20,6 +23,9 @@ theorem tie_h_defs_client_DeleteDAG : Extracted.Defs.h_defs_client_DeleteDAG = C
 #print axioms tie_h_defs_dagStoreImpl_Rename
 #print axioms tie_h_defs_dagStoreImpl_fileLocation
 #print axioms tie_h_defs__exists
+#print axioms tie_h_defs__writeFileAtomic
+#print axioms tie_h_defs_dagStoreImpl_ensureDirExist
+#print axioms tie_h_defs__checkExtension
 #print axioms tie_h_defs_client_CreateDAG
 #print axioms tie_h_defs_client_Rename
 #print axioms tie_h_defs_client_UpdateDAG
